@@ -297,12 +297,10 @@ Fixpoint lay_ok (l : list ltok) (nxt : option Z) : bool :=
 (* ---- canonical respelling ---- *)
 
 Definition norm_op (o : str) : str :=
-  match o with
-  | [62; 60] => [60; 62]     (* >< -> <> *)
-  | [61; 60] => [60; 61]     (* =< -> <= *)
-  | [61; 62] => [62; 61]     (* => -> >= *)
-  | _ => o
-  end.
+  if str_eqb o [62; 60] then [60; 62]          (* >< -> <> *)
+  else if str_eqb o [61; 60] then [60; 61]     (* =< -> <= *)
+  else if str_eqb o [61; 62] then [62; 61]     (* => -> >= *)
+  else o.
 
 Definition norm_tok (t : token) : list token :=
   match t with
